@@ -73,10 +73,10 @@ def run(res, tier, seed, driver_ok):
         corr('hlp.mirror %s %s' % (tmh.H(a), tmh.H(pt)), mp)
         TA = T6(a)
         loc = TA[:3, :3].T @ (pt - a[:3]); locm = TA[:3, :3].T @ (mp - a[:3])
-        if np.max(np.abs(locm - loc * np.array([1, 1, -1]))) > tol * 20:
+        if G.gt(np.max(np.abs(locm - loc * np.array([1, 1, -1]))), tol * 20):
             bad('mirror', 'mirror does not negate exactly the local z coordinate', {'frame': list(a), 'point': list(pt)}, {'local_before': loc.tolist(), 'local_after': locm.tolist()})
         m2 = fsr.mirror(A, m)
-        if np.max(np.abs(np.array([m2[0], m2[1], m2[2]]) - pt)) > tol * 20:
+        if G.gt(np.max(np.abs(np.array([m2[0], m2[1], m2[2]]) - pt)), tol * 20):
             bad('mirror-involution', 'mirror applied twice is not the identity', {'frame': list(a), 'point': list(pt)}, [m2[0], m2[1], m2[2]])
         # ---- interpolated midpoint
         mid = fsr.tmInterpMidpoint(A, B)
@@ -92,11 +92,11 @@ def run(res, tier, seed, driver_ok):
                 ang_mid = angle_of(T6(a)[:3, :3])
             if ang_mid < math.pi - 1e-2 and angle_of(T6(a)[:3, :3]) < math.pi - 1e-3 and angle_of(T6(b)[:3, :3]) < math.pi - 1e-3:
                 corr('hlp.interp %s %s' % (tmh.H(a), tmh.H(b)), mid.gTAA(), 1e-7)
-        if np.max(np.abs(mid.gTAA()[:3, 0] - (a[:3] + b[:3]) / 2)) > tol * 10:
+        if G.gt(np.max(np.abs(mid.gTAA()[:3, 0] - (a[:3] + b[:3]) / 2)), tol * 10):
             bad('midpoint-pos', 'interpolated midpoint does not have the mean position', {'a': list(a), 'b': list(b)}, mid.gTAA().reshape(-1).tolist())
         if 1e-5 < th < math.pi - 1e-2:
             H = mid.gTM()[:3, :3] @ T6(a)[:3, :3].T
-            if np.max(np.abs(H @ H - Re)) > 1e-7 or abs(angle_of(H) - th / 2) > 1e-7:
+            if G.gt(np.max(np.abs(H @ H - Re)), 1e-7) or abs(angle_of(H) - th / 2) > 1e-7:
                 # independent midpoint rotation: is it within 1e-4 of a half turn (where MatrixLog3 is known to lose precision, C01)?
                 wre = th / (2 * math.sin(th)) * np.array([Re[2, 1] - Re[1, 2], Re[0, 2] - Re[2, 0], Re[1, 0] - Re[0, 1]])
                 rmid = G.rot_ref(wre / 2) @ T6(a)[:3, :3]
@@ -111,7 +111,7 @@ def run(res, tier, seed, driver_ok):
             L = fsr.lookAt(A, Tg).gTM()
             d = (tgt - a[:3]) / np.linalg.norm(tgt - a[:3])
             okrot = np.all(np.isfinite(L)) and np.max(np.abs(L[:3, :3].T @ L[:3, :3] - np.eye(3))) < 1e-7 and abs(np.linalg.det(L[:3, :3]) - 1) < 1e-7
-            if not okrot or np.max(np.abs(L[:3, 3] - a[:3])) > tol * 10 or np.max(np.abs(L[:3, 2] - d)) > (1e-4 if vertical else 1e-7):
+            if not okrot or G.gt(np.max(np.abs(L[:3, 3] - a[:3])), tol * 10) or G.gt(np.max(np.abs(L[:3, 2] - d)), (1e-4 if vertical else 1e-7)):
                 bad('lookAt:%s' % ('vertical' if vertical else 'generic'), 'lookAt does not keep the position / is not a proper rotation with local z at the target',
                     {'from': list(a), 'target': list(tgt)}, np.asarray(L).tolist())
             if not vertical:
@@ -136,7 +136,7 @@ def run(res, tier, seed, driver_ok):
         corr('hlp.clg %s %s %s' % (tmh.H(a), tmh.H(b), C.f2h(delta)), g1.gTAA())
         adv = np.linalg.norm(g1.gTAA().reshape(-1) - a)
         dirn = (b - a) / np.linalg.norm(b - a)
-        if abs(adv - delta) > tol or np.max(np.abs((g1.gTAA().reshape(-1) - a) / delta - dirn)) > 1e-7:
+        if abs(adv - delta) > tol or G.gt(np.max(np.abs((g1.gTAA().reshape(-1) - a) / delta - dirn)), 1e-7):
             bad('closeLinearGap', 'linear gap step does not advance by delta toward the goal', {'a': list(a), 'b': list(b), 'delta': delta}, adv)
         g2 = fsr.closeArcGap(A, B, delta)
         corr('hlp.cag %s %s %s' % (tmh.H(a), tmh.H(b), C.f2h(delta)), g2.gTM(), 1e-8)
@@ -156,7 +156,7 @@ def run(res, tier, seed, driver_ok):
             g3 = fsr.closeLinearGap(A, Bn, delta)
             corr('hlp.clg %s %s %s' % (tmh.H(a), tmh.H(near), C.f2h(delta)), g3.gTAA())
             adv3 = np.linalg.norm(g3.gTAA().reshape(-1) - a)
-            if abs(adv3 - delta) > tol or np.max(np.abs((g3.gTAA().reshape(-1) - a) / delta - u6)) > 1e-6:
+            if abs(adv3 - delta) > tol or G.gt(np.max(np.abs((g3.gTAA().reshape(-1) - a) / delta - u6)), 1e-6):
                 bad('closeLinearGap', 'linear gap step does not advance by delta toward the goal', {'a': list(a), 'b': list(near), 'delta': delta, 'goal_nearer_than_step': True}, adv3)
         steps = rnd.choice([2, 3, 5, 17, rnd.randint(2, 200)])
         path = fsr.IKPath(A, B, steps)
@@ -164,8 +164,8 @@ def run(res, tier, seed, driver_ok):
         if n % 10 == 0:
             corr('hlp.ikpath %s %s %s' % (tmh.H(a), tmh.H(b), C.f2h(steps)), P, 1e-9)
         inc = np.diff(P, axis=0)
-        if len(path) != steps or np.max(np.abs(P[0] - a)) > tol or np.max(np.abs(P[-1] - b)) > tol or \
-                (steps > 2 and np.max(np.abs(inc - inc[0])) > tol * 10) or np.max(np.abs(inc[0] - (b - a) / (steps - 1))) > tol * 10:
+        if len(path) != steps or G.gt(np.max(np.abs(P[0] - a)), tol) or G.gt(np.max(np.abs(P[-1] - b)), tol) or \
+                (steps > 2 and G.gt(np.max(np.abs(inc - inc[0])), tol * 10)) or G.gt(np.max(np.abs(inc[0] - (b - a) / (steps - 1))), tol * 10):
             bad('IKPath', 'straight path is not `steps` evenly spaced poses from start to goal', {'a': list(a), 'b': list(b), 'steps': steps},
                 {'len': len(path), 'first': P[0].tolist(), 'last': P[-1].tolist()})
         # ---- twist to goal
@@ -173,7 +173,7 @@ def run(res, tier, seed, driver_ok):
             tw = fsr.twistToGoal(A, B)
             corr('hlp.twisttogoal %s %s' % (tmh.H(T6(a).reshape(-1)), tmh.H(T6(b).reshape(-1))), tw, 1e-7)
             reach = mr.MatrixExp6(mr.VecTose3(np.asarray(tw, dtype=float).reshape(6))) @ A.gTM()
-            if np.max(np.abs(reach - B.gTM())) > 1e-7 * 10:
+            if G.gt(np.max(np.abs(reach - B.gTM())), 1e-7 * 10):
                 bad('twistToGoal', 'the twist to the goal does not exponentiate onto the goal', {'a': list(a), 'b': list(b)}, G.maxdiff(reach, B.gTM()))
         # ---- angle wrapping (scalar, array, 6-vector, tm)
         r = rnd.uniform(-50, 50)
@@ -190,7 +190,7 @@ def run(res, tier, seed, driver_ok):
             bad('angleMod:scalar', 'angle wrapping changes the angle modulo 2*pi', {'r': r}, float(w1))
         if m2pi(w2, arr0) > 1e-9:
             bad('angleMod:array', 'angle wrapping changes the angle modulo 2*pi', {'r': arr0.tolist()}, np.asarray(w2).tolist())
-        if m2pi(w3[3:], six0[3:]) > 1e-9 or np.max(np.abs(w3[:3] - six0[:3])) > 0:
+        if m2pi(w3[3:], six0[3:]) > 1e-9 or G.gt(np.max(np.abs(w3[:3] - six0[:3])), 0):
             bad('angleMod:six', 'angle wrapping of a 6-vector changes an angle modulo 2*pi (or touches the position)', {'r': six0.tolist()}, np.asarray(w3).tolist())
         if m2pi(w4[3:], t0[3:]) > 1e-9:
             bad('angleMod:tm', 'angle wrapping of a transform changes an angle modulo 2*pi', {'taa': t0.tolist()}, w4.tolist())
@@ -198,7 +198,7 @@ def run(res, tier, seed, driver_ok):
         if n % 20 == 0:
             npts = rnd.choice([1, 2, 10, 100, rnd.randint(1, 2000)])
             fb = fsr.fiboSphere(npts); us = fsr.unitSphere(npts)
-            if fb.shape != (npts, 3) or np.max(np.abs(np.linalg.norm(fb, axis=1) - 1)) > tol or np.max(np.abs(np.linalg.norm(us, axis=1) - 1)) > tol:
+            if fb.shape != (npts, 3) or G.gt(np.max(np.abs(np.linalg.norm(fb, axis=1) - 1)), tol) or G.gt(np.max(np.abs(np.linalg.norm(us, axis=1) - 1)), tol):
                 bad('samplers', 'sphere samplers do not return unit vectors', {'n': npts}, None)
             i = rnd.randrange(npts)
             corr('hlp.fibo %s %s' % (C.f2h(float(i)), C.f2h(float(npts))), fb[i], 1e-9)
@@ -212,13 +212,13 @@ def run(res, tier, seed, driver_ok):
             # chainJacobian is the same recursion as JacobianSpace (T <- T e^{[S]theta}, column = Ad(T) S): it is tied to the SAME model
             # function, so the C06 theorems (column formula, derivative of FK) are about it too
             corr('mr.jacobianspace %s %s %s' % (C.f2h(nj), ' '.join(C.f2h(x) for x in S.T.reshape(-1)), ' '.join(C.f2h(x) for x in thv)), np.asarray(Jc).T.reshape(-1), 1e-9)
-            if np.max(np.abs(Jc - Js)) > 1e-8:
+            if G.gt(np.max(np.abs(Jc - Js)), 1e-8):
                 bad('chainJacobian', 'chain Jacobian differs from the analytic space Jacobian', {'screws': S.T.tolist(), 'theta': thv.tolist()}, G.maxdiff(Jc, Js))
             f = lambda x: np.array([math.sin(x[0]) * x[1], x[0] ** 2 + x[2], math.cos(x[2]) * x[1]])
             x0 = np.array([rnd.uniform(-1, 1) for _ in range(3)])
             Jn = fsr.numericalJacobian(f, x0, 1e-5)
             Ja = np.array([[math.cos(x0[0]) * x0[1], math.sin(x0[0]), 0], [2 * x0[0], 0, 1], [0, math.cos(x0[2]), -math.sin(x0[2]) * x0[1]]])
-            if np.max(np.abs(Jn - Ja)) > 1e-5:
+            if G.gt(np.max(np.abs(Jn - Ja)), 1e-5):
                 bad('numericalJacobian', 'numerical Jacobian differs from the analytic one', {'x0': x0.tolist()}, G.maxdiff(Jn, Ja))
         if n < 2:
             res.sample({'a': list(a), 'b': list(b), 'point': list(pt), 'delta': delta, 'steps': steps})
@@ -228,14 +228,14 @@ def run(res, tier, seed, driver_ok):
         res.evaluations += 1
         us = np.asarray(fsr.unitSphere(k_ * k_), dtype=float)
         nr = np.linalg.norm(us, axis=1) if us.ndim == 2 and us.shape[1] == 3 else np.array([np.nan])
-        if not np.all(np.isfinite(nr)) or np.max(np.abs(nr - 1)) > tol:
+        if not np.all(np.isfinite(nr)) or G.gt(np.max(np.abs(nr - 1)), tol):
             bad('samplers', 'sphere samplers do not return unit vectors', {'function': 'unitSphere', 'n': k_ * k_, 'grid': k_},
                 {'rows_not_unit': int(np.sum(~(np.abs(nr - 1) <= tol))), 'rows': int(len(nr))})
     for n_ in list(range(1, 65)) + [rnd.randint(65, 2000) for _ in range(12)]:
         res.evaluations += 1
         fb = np.asarray(fsr.fiboSphere(n_), dtype=float)
         nr = np.linalg.norm(fb, axis=1) if fb.ndim == 2 and fb.shape[1] == 3 else np.array([np.nan])
-        if fb.shape != (n_, 3) or not np.all(np.isfinite(nr)) or np.max(np.abs(nr - 1)) > tol:
+        if fb.shape != (n_, 3) or not np.all(np.isfinite(nr)) or G.gt(np.max(np.abs(nr - 1)), tol):
             bad('samplers', 'sphere samplers do not return unit vectors', {'function': 'fiboSphere', 'n': n_}, {'shape': list(fb.shape)})
     # ---- correspondence
     ncmp = 0
